@@ -96,6 +96,10 @@ func (s *JavaRefactorListener) EnterClassOrInterfaceType(ctx *ClassOrInterfaceTy
 }
 
 func (s *JavaRefactorListener) EnterAnnotation(ctx *AnnotationContext) {
+	if ctx.QualifiedName() == nil {
+		// the form `a.@B` has no qualified name of this shape
+		return
+	}
 	annotation := ctx.QualifiedName().GetText()
 
 	startLine := ctx.GetStart().GetLine()
@@ -119,6 +123,10 @@ func (s *JavaRefactorListener) EnterLambdaParameters(ctx *LambdaParametersContex
 }
 
 func (s *JavaRefactorListener) EnterMethodCall(ctx *MethodCallContext) {
+	if ctx.Identifier() == nil {
+		// this(...) and super(...) name no method
+		return
+	}
 	text := ctx.Identifier().GetText()
 	startLine := ctx.GetStart().GetLine()
 	stopLine := ctx.GetStop().GetLine()
